@@ -67,7 +67,7 @@ func (m Model) Apply(p Program) Model {
 			if _, ok := c[o.Store][o.K]; !ok {
 				c[o.Store][o.K] = o.V
 			}
-		case "update":
+		case "update", "rmw":
 			if _, ok := c[o.Store][o.K]; ok {
 				c[o.Store][o.K] = o.V
 			}
@@ -228,6 +228,13 @@ func Run(o Opener, t sop.Transaction, p Program) (*OpResult, error) {
 			if okk && err == nil {
 				_, err = b.GetCurrentValue(ctx)
 			}
+		case "rmw": // the ordinary read-modify-write: find, read the value, update the current item
+			okk, err = b.Find(ctx, op.K, false)
+			if okk && err == nil {
+				if _, err = b.GetCurrentValue(ctx); err == nil {
+					okk, err = b.UpdateCurrentValue(ctx, op.V)
+				}
+			}
 		}
 		if err != nil || !okk {
 			return &OpResult{Op: op, OK: okk, Err: err}, nil
@@ -349,7 +356,11 @@ func Gen(rnd *rand.Rand, shape string, m Model, existing []Spec, tag string) Pro
 		ks := keysOf(s.Name)
 		for i := 0; i < 1+rnd.Intn(4) && len(ks) > 0; i++ {
 			k := ks[rnd.Intn(len(ks))]
-			p.Ops = append(p.Ops, Op{s.Name, "update", k, Val(fmt.Sprintf("%su%d", tag, i), 10+rnd.Intn(20))})
+			kind := "update"
+			if rnd.Intn(2) == 0 {
+				kind = "rmw"
+			}
+			p.Ops = append(p.Ops, Op{s.Name, kind, k, Val(fmt.Sprintf("%su%d", tag, i), 10+rnd.Intn(20))})
 		}
 	case "S7-removes":
 		s := pick()
@@ -415,7 +426,7 @@ func Gen(rnd *rand.Rand, shape string, m Model, existing []Spec, tag string) Pro
 				continue
 			}
 			cur[o.Store][o.K] = o.V
-		case "update":
+		case "update", "rmw":
 			if !exists {
 				continue
 			}
